@@ -953,8 +953,13 @@ class _SymbolCreator(mcasm.Streamer):
         if label.is_temporary and self._state.temp_symbol_suffix is not None:
             symbol_name += self._state.temp_symbol_suffix
 
-        if label.name in self._state.local_symbols or any(
-            self._state.target.symbol_lookup(label.name)
+        if (
+            label.name in self._state.local_symbols
+            or any(self._state.target.symbol_lookup(label.name))
+            or (
+                symbol_name != label.name
+                and any(self._state.target.symbol_lookup(symbol_name))
+            )
         ):
             raise MultipleDefinitionsError._make(
                 f"{symbol_name} defined multiple times",
